@@ -360,7 +360,8 @@ fn render_flat(modules: &[Module]) -> String {
             } else if g.is_fn {
                 s.push_str(&format!("{} :: fn -> {} do\n    ret {}\nend\n", n, g.ty.name(), g.lit.clone().unwrap_or_default()));
             } else if let Some((cm, cg)) = &g.copies {
-                s.push_str(&format!("{} :: {}\n", n, flat_name(modules, *cm, cg)));
+                let (pre, post) = g.lit.as_deref().and_then(|l| l.split_once('|')).unwrap_or(("", ""));
+                s.push_str(&format!("{} :: {}{}{}\n", n, pre, flat_name(modules, *cm, cg), post));
             } else {
                 s.push_str(&format!("{} {} {}\n", n, if g.init.contains(" := ") { ":=" } else { "::" }, g.lit.clone().unwrap_or_default()));
             }
@@ -640,11 +641,29 @@ pub fn generate_with(seed: u64, with_std: bool) -> Project {
         }
         let g = r.pick(&gs).clone();
         let name = format!("qc{}", f);
+        // half of the copies go through an operator (the value then depends on the other module's global through
+        // an expression, not through a bare name)
+        let (pre, post): (&str, &str) = if r.chance(1, 2) {
+            ("", "")
+        } else {
+            match (&g.ty, r.below(2)) {
+                (Ty::Int, 0) => ("1000 + ", ""),
+                (Ty::Int, _) => ("", " * 2"),
+                (Ty::Float, 0) => ("", " + 1.5"),
+                (Ty::Float, _) => ("0.5 * ", ""),
+                (Ty::Bool, 0) => ("", " and true"),
+                (Ty::Bool, _) => ("false or ", ""),
+                _ => ("", ""),
+            }
+        };
+        if !pre.is_empty() || !post.is_empty() {
+            features.insert("copy_initialiser_through_operator");
+        }
         modules[f].globals.push(Global {
             name: name.clone(),
             ty: g.ty.clone(),
-            init: format!("{} :: {}.{}", name, ns, g.name),
-            lit: None,
+            init: format!("{} :: {}{}.{}{}", name, pre, ns, g.name, post),
+            lit: Some(format!("{}|{}", pre, post)),
             copies: Some((t, g.name.clone())),
             is_type: false,
             is_fn: false,
@@ -801,6 +820,9 @@ pub fn generate_with(seed: u64, with_std: bool) -> Project {
                 varied_flags.push(varied);
                 if varied {
                     for g in c.globals.iter_mut() {
+                        if g.copies.is_some() {
+                            continue;
+                        }
                         if let Some(l) = g.lit.clone() {
                             let nl = match &g.ty {
                                 Ty::Int => format!("{}", l.parse::<i64>().unwrap_or(0) + 100),
